@@ -247,6 +247,14 @@ def task_protonate(pr, repo):
         seen = []
         ex.contracts[P + '.protonate_atom'] = lambda ex, ctx_, fi, a, k, so: seen.append(a[0])
         ex.contracts[P + '.remove_all_hydrogen_atoms'] = lambda ex, ctx_, fi, a, k, so: seen.append('remove')
+
+        def bondmaker(ex, ctx_, ci, a, k, so=None):
+            # any bond search started from here is recorded (a search AFTER the hydrogens are built bonds them by distance to whatever
+            # heavy atom is near - the hydrogens are bonded by add_proton to their own atom only)
+            bm = record('bm', None)
+            bm.attrs['__lazy__'] = lambda o, name: Builtin('bm.' + name, lambda ex, *a_, **k_: seen.append('BondMaker.' + name))
+            return bm
+        ex.contracts['propka.bonds.BondMaker'] = bondmaker
         atoms = [record('x%d' % i, A, element=e) for i, e in enumerate(['N', 'H', 'C'])]
         conf = record('conf', None)
         conf.attrs['get_non_hydrogen_atoms'] = Builtin('g', lambda ex: [a for a in atoms if a.attrs['element'] != 'H'])
